@@ -6,7 +6,8 @@
 EXTENDS Naturals, Sequences, FiniteSets
 
 CONSTANTS Chunks,     \* number of input chunks (chunk 1 carries the schema)
-          MaxModels, MaxMut
+          MaxModels, MaxMut,
+          Late        \* TRUE: the schema chunk may arrive after rows and after builds, or never (inferred classes)
 
 VARIABLES fed,        \* sequence of chunks given to the loader so far
           nm,         \* number of metamodels built
@@ -17,8 +18,8 @@ vars == <<fed, nm, mut>>
 Init == fed = <<>> /\ nm = 0 /\ mut = [k \in 1..MaxModels |-> 0]
 
 Fed == {fed[i] : i \in DOMAIN fed}
-Feed(c) == c \notin Fed /\ (c = 1 \/ 1 \in Fed) /\ fed' = Append(fed, c) /\ UNCHANGED <<nm, mut>>
-BuildModel == 1 \in Fed /\ nm < MaxModels /\ nm' = nm + 1 /\ UNCHANGED <<fed, mut>>
+Feed(c) == c \notin Fed /\ (Late \/ c = 1 \/ 1 \in Fed) /\ fed' = Append(fed, c) /\ UNCHANGED <<nm, mut>>
+BuildModel == (IF Late THEN fed # <<>> ELSE 1 \in Fed) /\ nm < MaxModels /\ nm' = nm + 1 /\ UNCHANGED <<fed, mut>>
 Mutate(k) == k <= nm /\ mut[k] < MaxMut /\ mut' = [mut EXCEPT ![k] = @ + 1] /\ UNCHANGED <<fed, nm>>
 \* a change of the metamodel's own schema (new attribute, identifier, class): its last mutation
 SchemaMutate(k) == k <= nm /\ mut[k] < MaxMut /\ mut' = [mut EXCEPT ![k] = MaxMut] /\ UNCHANGED <<fed, nm>>
